@@ -1657,6 +1657,16 @@ def _norm_site(site):
     return re.sub(r"[\s()]", "", site)
 
 
+def _site_kind(site):
+    """Obligation class of a reviewed-site key: `assert:Overflow(Add)`, `cast:usize->u16`, `unwrap`, `panic`, `index`, ..."""
+    m = re.match(r"(assert:[^:]+|cast:[^:]+|[^:]+)", site)
+    return m.group(1) if m else site
+
+
+def _root_fn_name(name):
+    return re.sub(r"(::\{closure#\d+\})+$", "", name)
+
+
 def check_panic_freedom(prog, rule, roots, prop, scope_crates=("rustybgp_packet",), profile="debug", extra_skip=None, casts_in=None, cast_rule=None, cast_filter=None, field_bounds=None, cast_bounds=None):
     """Run the interpreter over every local function reachable from `roots` and turn open obligations into
     rule violations unless listed (with still-valid reasons) in specs/reviewed_sites.json."""
@@ -1672,6 +1682,7 @@ def check_panic_freedom(prog, rule, roots, prop, scope_crates=("rustybgp_packet"
     fns = sorted(k for k in reach if k.split("::")[0] in scope_crates)
     n_open = 0
     seen_keys = set()
+    claimed = set()
     # pass 1: return summaries (two rounds so that summaries of callees feed their callers' summaries)
     cache = getattr(prog, "_absint_cache", None)
     if cache is None:
@@ -1717,6 +1728,33 @@ def check_panic_freedom(prog, rule, roots, prop, scope_crates=("rustybgp_packet"
         rule.analysed(prog.name(k))
         if not it.converged:
             rule.unanalysable("fixpoint not reached for %s" % prog.name(k), it.fv.loc())
+        # exact keys first; then pair the remaining open obligations with the remaining reviewed entries by class
+        fallback = {}
+        counts0, open_keys, exact = {}, [], set()
+        for (b, idx), ob in sorted(it.obls.items(), key=lambda kv: (kv[0][0], str(kv[0][1]))):
+            if ob.kind.startswith("cast:") and cast_filter is not None and not cast_filter(ob):
+                continue
+            base = "%s:%s" % (ob.kind, re.sub(r"\s+", " ", ob.desc)[:70])
+            counts0[base] = counts0.get(base, 0) + 1
+            site0 = base if counts0[base] == 1 else "%s#%d" % (base, counts0[base])
+            if ob.status == "discharged":
+                continue
+            rk0 = (prog.name(k), _norm_site(site0))
+            if rk0 in reviewed:
+                exact.add(rk0)
+            else:
+                open_keys.append(((k, b, str(idx)), ob.kind))
+        if open_keys:
+            nm = prog.name(k)
+            pool = [rk1 for rk1, e in reviewed.items() if e.get("prop") == prop and rk1 not in exact and rk1 not in claimed
+                    and (e["fn"] == nm or e["fn"] == _root_fn_name(nm) or _root_fn_name(e["fn"]) == nm)]
+            for okey, kind in open_keys:
+                for rk1 in pool:
+                    if _site_kind(reviewed[rk1]["site"]) == kind:
+                        fallback[okey] = rk1
+                        pool.remove(rk1)
+                        claimed.add(rk1)
+                        break
         counts = {}
         for (b, idx), ob in sorted(it.obls.items(), key=lambda kv: (kv[0][0], str(kv[0][1]))):
             if ob.kind.startswith("cast:") and cast_filter is not None and not cast_filter(ob):
@@ -1730,13 +1768,20 @@ def check_panic_freedom(prog, rule, roots, prop, scope_crates=("rustybgp_packet"
             if ob.status == "discharged":
                 tgt_rule.ok("%s %s" % (short(prog.name(k)), site), ob.by)
                 continue
-            if is_inv and (prog.name(k), _norm_site(site)) not in reviewed:
+            if is_inv and (prog.name(k), _norm_site(site)) not in reviewed and (k, b, str(idx)) not in fallback:
                 if ob.kind == "field-bound":
                     tgt_rule.fail(prog.name(k), site, "a value built from API input can violate %s (the wire decoder enforces it): %s" % (ob.desc, ob.by), where)
                 else:
                     tgt_rule.fail(prog.name(k), site, "narrowing cast %s of %s can truncate: %s" % (ob.kind[5:], ob.desc, ob.by), where)
                 continue
             rk = (prog.name(k), _norm_site(site))
+            if rk not in reviewed:
+                # the text of the site changed (renamed local, statement rewritten, moved into a closure): fall back to
+                # a reviewed entry of the same function (or its root function) and the same obligation class that no
+                # site has claimed under its exact key
+                alt = fallback.get((k, b, str(idx)))
+                if alt is not None:
+                    rk = alt
             if rk in reviewed:
                 seen_keys.add(rk)
                 # the guards the review relied on must still dominate the site
